@@ -9,7 +9,7 @@ RUNS="${1:-20000}"
 JOBS="${2:-16}"
 SEED="${VERIF_SEED:-1}"
 [ "$SEED" = "0" ] && SEED=1
-ROOT=/verif
+ROOT="$(dirname "$(dirname "$(realpath "$0")")")"
 export CARGO_NET_OFFLINE=true VERIF_FUZZ_LIGHT=1 RAYON_NUM_THREADS=1
 cd "$ROOT"
 cargo +nightly fuzz build --fuzz-dir fuzz -s none > "$ROOT/harness/target/fuzz-build.log" 2>&1 || { echo "HARNESS-PROBLEM: fuzz build failed"; tail -20 "$ROOT/harness/target/fuzz-build.log"; exit 2; }
